@@ -24,7 +24,16 @@ pub struct Case {
     pub piece: u8,
     /// failure path: truncate the document this many bytes after the chosen start tag (scaled)
     pub truncate: Option<u16>,
+    /// history before the call under test, on the same reader: 0 = none; 1 = an earlier skip call
+    /// that FAILS with a recoverable error (a small ill-formed element is put in front of the
+    /// document), made while the trimming switches had the opposite values; 2 = an earlier skip
+    /// call that succeeds, same switch change afterwards
+    #[serde(default)]
+    pub prelude: u8,
 }
+
+const PRE_FAIL: &[u8] = b"<zq><zr></zx></zr></zq>";
+const PRE_OK: &[u8] = b"<zq k='1'> <zr>t</zr> </zq>";
 
 pub fn info() -> PropInfo {
     PropInfo {
@@ -85,16 +94,25 @@ pub fn check(c: &Case) -> Verdict {
         _ => unreachable!(),
     };
     let info = &rendered.elems[id];
-    let start_end = rendered.flat[tflat].end as u64;
-    let (want_span, close_end) = if is_empty { (start_end..start_end, start_end) } else { (start_end..rendered.flat[info.close_idx].start as u64, rendered.flat[info.close_idx].end as u64) };
+    // an optional prelude element in front of the document shifts every position
+    let pre: &[u8] = match c.prelude % 3 {
+        1 => PRE_FAIL,
+        2 => PRE_OK,
+        _ => b"",
+    };
+    let off = pre.len() as u64;
+    let start_end_d = rendered.flat[tflat].end as u64;
+    let start_end = start_end_d + off;
+    let (want_span, close_end) = if is_empty { (start_end..start_end, start_end) } else { (start_end..rendered.flat[info.close_idx].start as u64 + off, rendered.flat[info.close_idx].end as u64 + off) };
     // truncation (failure path)
     let full_len = rendered.text.len();
-    let data: Vec<u8> = match c.truncate {
+    let mut data: Vec<u8> = pre.to_vec();
+    match c.truncate {
         Some(t) => {
-            let room = full_len - start_end as usize;
-            rendered.text[..start_end as usize + scale(t, room + 1).min(room)].to_vec()
+            let room = full_len - start_end_d as usize;
+            data.extend_from_slice(&rendered.text[..start_end_d as usize + scale(t, room + 1).min(room)]);
         }
-        None => rendered.text.clone(),
+        None => data.extend_from_slice(&rendered.text),
     };
     let truncated_before_close = (data.len() as u64) < close_end;
     let name = info.name.clone();
@@ -121,7 +139,33 @@ pub fn check(c: &Case) -> Verdict {
         cfg_after: u8,
     }
     macro_rules! seek_and_skip {
-        ($r:ident, $read:expr, $skip:expr) => {{
+        ($r:ident, $read:expr, $skip:expr, $pre_skip:expr) => {{
+            if off > 0 {
+                // earlier history on this reader: opposite trimming switches, a skip call on the
+                // prelude element (it fails with a recoverable error or succeeds), then whatever is
+                // left of the prelude is read event by event
+                apply_cfg($r.config_mut(), cfg ^ (TRIM_START | TRIM_END));
+                let first = $read;
+                let is_start = matches!(first, Ok(Event::Start(_)));
+                drop(first);
+                if is_start {
+                    let _ = $pre_skip;
+                }
+                for _ in 0..16 {
+                    if $r.buffer_position() >= off {
+                        break;
+                    }
+                    let e = $read;
+                    let stop = matches!(e, Ok(Event::Eof));
+                    drop(e);
+                    if stop {
+                        break;
+                    }
+                }
+                if $r.buffer_position() != off {
+                    return Verdict::excluded("prelude-not-consumed-exactly");
+                }
+            }
             apply_cfg($r.config_mut(), cfg);
             let mut found = false;
             for _ in 0..call_bound(data.len()) {
@@ -154,7 +198,7 @@ pub fn check(c: &Case) -> Verdict {
     let out: Out = match c.variant % 4 {
         0 => {
             let mut r = Reader::from_reader(&data[..]);
-            seek_and_skip!(r, r.read_event(), (r.read_to_end(qn).map_err(|e| format!("{:?}", e)), None))
+            seek_and_skip!(r, r.read_event(), (r.read_to_end(qn).map_err(|e| format!("{:?}", e)), None), r.read_to_end(QName(b"zq")).map(|_| ()))
         }
         1 => {
             let mut r = Reader::from_reader(&data[..]);
@@ -164,7 +208,7 @@ pub fn check(c: &Case) -> Verdict {
                     Ok(t) => (Ok(before..before + t.len() as u64), Some(t.into_owned())),
                     Err(e) => (Err(format!("{:?}", e)), None),
                 }
-            })
+            }, r.read_text(QName(b"zq")).map(|_| ()))
         }
         2 => {
             let mut r = Reader::from_reader(ChunkedBufRead::new(&data, cuts));
@@ -176,7 +220,8 @@ pub fn check(c: &Case) -> Verdict {
                     buf.clear();
                     r.read_event_into(&mut buf)
                 },
-                (r.read_to_end_into(qn, &mut buf2).map_err(|e| format!("{:?}", e)), None)
+                (r.read_to_end_into(qn, &mut buf2).map_err(|e| format!("{:?}", e)), None),
+                r.read_to_end_into(QName(b"zq"), &mut buf2).map(|_| ())
             )
         }
         _ => {
@@ -189,7 +234,8 @@ pub fn check(c: &Case) -> Verdict {
                     buf.clear();
                     block_on(r.read_event_into_async(&mut buf))
                 },
-                (block_on(r.read_to_end_into_async(qn, &mut buf2)).map_err(|e| format!("{:?}", e)), None)
+                (block_on(r.read_to_end_into_async(qn, &mut buf2)).map_err(|e| format!("{:?}", e)), None),
+                block_on(r.read_to_end_into_async(QName(b"zq"), &mut buf2)).map(|_| ())
             )
         }
     };
@@ -229,6 +275,11 @@ pub fn check(c: &Case) -> Verdict {
         }
     }
     v.classes.push(["read_to_end", "read_text", "read_to_end_into", "read_to_end_into_async"][(c.variant % 4) as usize]);
+    match c.prelude % 3 {
+        1 => v.classes.push("after-an-earlier-failed-skip-and-a-switch-change"),
+        2 => v.classes.push("after-an-earlier-successful-skip-and-a-switch-change"),
+        _ => {}
+    }
     v
 }
 
@@ -250,7 +301,7 @@ fn run(ctx: &Ctx) {
                 for variant in 0..4u8 {
                     let cfgsel = (i as usize + k + variant as usize) % 8;
                     let cfg = [0, TRIM_START, TRIM_END, TRIM_START | TRIM_END, EXPAND_EMPTY, EXPAND_EMPTY | TRIM_START, EXPAND_EMPTY | TRIM_END, EXPAND_EMPTY | TRIM_START | TRIM_END][cfgsel] | if (i as usize + k) % 3 == 0 { 0 } else { TRIM_NAMES } | if (k + variant as usize) % 5 == 0 { 1 } else { 0 };
-                    out.push(Case { doc: d.clone(), target: ((k * 65536 + 32768) / n) as u16, cfg, variant, piece: [0, 1, 2, 5][(k + i as usize) % 4], truncate: None });
+                    out.push(Case { doc: d.clone(), target: ((k * 65536 + 32768) / n) as u16, cfg, variant, piece: [0, 1, 2, 5][(k + i as usize) % 4], truncate: None, prelude: [0u8, 0, 1, 2][(k + 2 * variant as usize + i as usize) % 4] });
                 }
             }
             out
@@ -269,13 +320,13 @@ fn run(ctx: &Ctx) {
             let len = r.text.len();
             let mut out = vec![];
             for t in 0..=len.min(200) {
-                out.push(Case { doc: d.clone(), target: (i as u16).wrapping_mul(7919), cfg: [TRIM_START | TRIM_NAMES, 0, TRIM_START | TRIM_END | TRIM_NAMES][t % 3], variant: (t % 4) as u8, piece: 1, truncate: Some(((t * 65536) / (len.min(200) + 1)) as u16) });
+                out.push(Case { doc: d.clone(), target: (i as u16).wrapping_mul(7919), cfg: [TRIM_START | TRIM_NAMES, 0, TRIM_START | TRIM_END | TRIM_NAMES][t % 3], variant: (t % 4) as u8, piece: 1, truncate: Some(((t * 65536) / (len.min(200) + 1)) as u16), prelude: [0u8, 1, 0, 2][(t / 3) % 4] });
             }
             out
         },
         check,
     );
-    let strat = move || Box::new((doc_strategy(&p), any::<u16>(), 0u8..128, 0u8..4, 0u8..6, prop::option::weighted(0.3, any::<u16>())).prop_map(|(doc, target, cfg, variant, piece, truncate)| Case { doc, target, cfg, variant, piece, truncate }));
+    let strat = move || Box::new((doc_strategy(&p), any::<u16>(), 0u8..128, 0u8..4, 0u8..6, prop::option::weighted(0.3, any::<u16>()), 0u8..3).prop_map(|(doc, target, cfg, variant, piece, truncate, prelude)| Case { doc, target, cfg, variant, piece, truncate, prelude }));
     ctx.run_proptest_with("documents-x-random-start", ctx.tier.pick(600_000, 5_000_000), strat, check);
 }
 
